@@ -1,10 +1,10 @@
 SPECIFICATION Spec
 CONSTANTS
-  MaxNodes = 5
+  MaxNodes = 8
   Tier = "q"
   ModelIds <- DbgModels
-  AllowAlias = FALSE
-  AllowCycles = FALSE
+  AllowAlias = TRUE
+  AllowCycles = TRUE
   AllowEmpty = TRUE
 CONSTRAINT Export
 CHECK_DEADLOCK FALSE
